@@ -141,6 +141,8 @@ type Exec struct {
 	clock     *Term
 	clockMin  *Term
 	sleepWeak bool
+	ranges    map[int32]urange
+	assertLog []assertRec
 	nclock    int
 	ghost     map[string]Value
 	havocs    map[string]bool
@@ -160,6 +162,11 @@ type inputRec struct {
 	Name string  `json:"name,omitempty"`
 	N    int     `json:"n,omitempty"`
 	vars []*Term
+}
+
+type assertRec struct {
+	label string
+	cond  *Term
 }
 
 type obsRec struct {
